@@ -127,7 +127,22 @@ func crashSignature(out []byte) (sig string, excerpt string) {
 		head = head[:100]
 	}
 	frame := ""
-	for _, l := range lines[start:] {
+	// only the panicking goroutine's stack: from the first "goroutine N [running]"
+	// after the panic line up to the next blank line
+	blockStart, blockEnd := start, len(lines)
+	for i := start; i < len(lines); i++ {
+		if strings.HasPrefix(lines[i], "goroutine ") {
+			blockStart = i
+			for j := i; j < len(lines); j++ {
+				if strings.TrimSpace(lines[j]) == "" {
+					blockEnd = j
+					break
+				}
+			}
+			break
+		}
+	}
+	for _, l := range lines[blockStart:blockEnd] {
 		l = strings.TrimSpace(l)
 		if strings.HasPrefix(l, "github.com/ipfs/ipfs-cluster") {
 			if m := reFrame.FindStringSubmatch(l); m != nil {
